@@ -23,6 +23,15 @@ How
   `/proc/<pid>/psinfo`, `proc_name` used by `_assert_alive`, `pids()`, `pid_exists`), every
   other primitive keeps answering.
 * Records hold a DISTINCT value in every slot (`slot_value`), so a swapped slot shows.
+* Answer shapes (seeded round 5): `World.empty` names native calls whose answer about THIS process
+  (a list / dict / str) is handed back EMPTY — the native call succeeds, it just found nothing
+  (no thread, no socket, no open file). That is the only way the "empty answer → is the process
+  still there?" re-checks of the Solaris / AIX layers are reached.
+* `os.path.exists / isfile / islink` are what `genericpath` / `posixpath` define: ONE `stat()` /
+  `lstat()` call whose OSError is swallowed and answered `False`. They are traced native calls and
+  they CAN be faulted: the faulted call answers `False` (the OS error never reaches the caller) —
+  an OS failure hidden behind such a yes/no question is still an OS failure of a native call the
+  method makes.
 """
 import errno
 import importlib.util
@@ -184,7 +193,7 @@ class World:
     """state of the scripted native layer for ONE call of a Process method"""
 
     def __init__(self, emu, pid=42, fault_at=None, err=None, state="alive", pid0_listed=True,
-                 sticky=False, fault2_at=None, err2=None, overrides=None, zcode=None):
+                 sticky=False, fault2_at=None, err2=None, overrides=None, zcode=None, empty=()):
         self.emu = emu
         self.pid = pid
         self.fault_at = fault_at          # index in the native-call sequence, or None
@@ -193,6 +202,8 @@ class World:
         self.err2 = err2
         self.overrides = overrides or {}  # native name -> script(world, *args) for this one case
         self.zcode = zcode                # native status-code NAME the record holds when state == "zombie" (default SZOMB)
+        self.empty = frozenset(empty or ())   # native calls whose per-process list / dict / str answer comes back empty
+        self.answers = []                 # per traced call: (name, about this process?, kind of collection answered | None)
         self.state = state                # seen by the probe primitives AFTER the fault fired
         self.pid0_listed = pid0_listed
         self.sticky = sticky              # the faulted *function* keeps failing afterwards
@@ -204,6 +215,38 @@ class World:
 
     def cur_state(self):
         return self.state if self.switched else "alive"
+
+
+# yes/no questions about a path: one stat()/lstat() whose OSError is swallowed (genericpath.exists / isfile,
+# posixpath.islink: `except (OSError, ValueError): return False`)
+PATH_PROBES = ("os.path.exists", "os.path.isfile", "os.path.islink", "os.path.isdir", "os.path.lexists")
+
+
+def about_pid(w, args):
+    """is this native call a question about the scripted process (first argument = its pid, or a path below
+    <procfs>/<pid>)?"""
+    if not args:
+        return False
+    a = args[0]
+    if isinstance(a, bool):
+        return False
+    if isinstance(a, int):
+        return a == w.pid
+    if isinstance(a, bytes):
+        a = a.decode("latin-1")
+    if isinstance(a, str):
+        return a == "%s/%d" % (PROCFS, w.pid) or a.startswith("%s/%d/" % (PROCFS, w.pid))
+    return False
+
+
+def collection_kind(r):
+    if isinstance(r, list):
+        return "list"
+    if isinstance(r, dict):
+        return "dict"
+    if isinstance(r, str):
+        return "str"
+    return None
 
 
 def make_oserror(err, windows):
@@ -226,17 +269,28 @@ class NativeFn:
             raise Unscripted("native call %s outside a scripted case" % self.name)
         idx = len(w.trace)
         w.trace.append(self.name)
+        w.answers.append((self.name, about_pid(w, a), None))
         if idx == w.fault_at or (w.sticky and w.sticky_name == self.name):
             w.switched = True
             w.sticky_name = self.name
+            if self.name in PATH_PROBES:
+                return False        # the stat() inside the path question failed: swallowed, answered "no"
             raise make_oserror(w.err, self.emu.windows)
         if w.fault2_at is not None and idx == w.fault2_at:
             w.switched = True
+            if self.name in PATH_PROBES:
+                return False
             raise make_oserror(w.err2, self.emu.windows)
         script = w.overrides.get(self.name, self.script)
         if script is None:
             raise Unscripted(self.name)
-        return script(w, *a, **kw)
+        r = script(w, *a, **kw)
+        kind = collection_kind(r)
+        if kind is not None and w.answers[idx][1]:
+            w.answers[idx] = (self.name, True, kind if len(r) else None)
+            if self.name in w.empty:
+                return type(r)()
+        return r
 
     def __repr__(self):
         return "<scripted native %s>" % self.name
@@ -430,6 +484,9 @@ def scripts_for(emu):
         S["os.readlink"] = os_readlink
         S["os.kill"] = lambda w, pid, sig: (_ for _ in ()).throw(_gone_err(w)) if w.cur_state() == "gone" else None
         S["os.path.exists"] = lambda w, p: not (_pidpath(p) and _pidpath(p)[0].isdigit() and w.cur_state() == "gone")
+        S["os.path.lexists"] = S["os.path.exists"]
+        S["os.path.isdir"] = lambda w, p: bool(_pidpath(p)) and len(_pidpath(p)) == 1 and _pidpath(p)[0].isdigit() \
+            and w.cur_state() != "gone"      # <procfs>/<pid> itself
         S["os.path.islink"] = lambda w, p: True
         S["os.path.isfile"] = lambda w, p: True
         S["os.access"] = lambda w, p, mode: True
@@ -473,7 +530,7 @@ def scripts_for(emu):
 
 
 OS_NATIVE = ["kill", "stat", "lstat", "readlink", "listdir", "waitpid", "access"]
-OSPATH_NATIVE = ["exists", "islink", "isfile"]
+OSPATH_NATIVE = ["exists", "islink", "isfile", "isdir", "lexists"]
 
 
 class PathProxy:
@@ -763,11 +820,12 @@ class Emu:
         return ()
 
     def run(self, meth, pid=42, fault_at=None, err=None, state="alive", pid0_listed=True,
-            name="c20cached", ppid=7, sticky=False, args=None, fault2_at=None, err2=None, zcode=None):
+            name="c20cached", ppid=7, sticky=False, args=None, fault2_at=None, err2=None, zcode=None, empty=(),
+            with_answers=False):
         """Call the platform module's Process(pid).<meth>() over a scripted world.
         Returns (observable, trace). Every exception is an observable."""
         self.clear_caches()
-        w = World(self, pid, fault_at, err, state, pid0_listed, sticky, fault2_at, err2, zcode=zcode)
+        w = World(self, pid, fault_at, err, state, pid0_listed, sticky, fault2_at, err2, zcode=zcode, empty=empty)
         self.world = w
         self.in_terminal = meth == "terminal"
         try:
@@ -788,6 +846,8 @@ class Emu:
         obs["sleeps"] = w.sleeps
         if w.sleeps:
             obs["slept"] = round(w.slept, 6)
+        if with_answers:
+            return obs, w.trace, w.answers
         return obs, w.trace
 
     def call(self, fn, *a, world=None, **kw):
